@@ -8,6 +8,17 @@ CSX_NOTE = ("Trusted base: gate semantics of qp-plonky2 1.5.5 as modelled in csx
             "FRI/PLONK soundness, z3. Poseidon2 is uninterpreted, so results hold for any permutation.")
 CSX_TECH = "SMT (z3, integer theory + UF) over the gate-level constraint system extracted from the real built circuit; counterexamples replayed through the real prover/verifier"
 
+KANI_NOTE = ("Trusted base: Kani 0.68/CBMC 6.11 with unwinding assertions; the harness build replaces anyhow by a heap-free shim and stubs "
+             "alloc::fmt::format (listed in the evidence); harness crates take /repo crates as unmodified path dependencies.")
+KANI_TECH = "bounded model checking of the compiled Rust code (Kani/CBMC + CaDiCaL) over kani::any() inputs; failing harnesses replayed natively via concrete playback"
+KANI = {
+ "C24": ("model_checking", "4 (C24)", "u64 parsers of qp-wormhole-inputs: total (no panic) and accept exactly the reference layout predicate with field-exact results, for every vector of the covered lengths; felt-based parsers not covered."),
+ "C25": ("model_checking", "4 (C25)", "Integer limb codecs and digest validation over their full input width; edge byte encoding round-trips (hence injective) for every string of length <= 9; 1 MiB cap rejection; quantization only near the cap."),
+ "C26": ("model_checking", "4 (C26)", "Compact hash accepts exactly aligned canonical input and feeds the limb sequence to the sponge; node hashing errs exactly on a non-canonical limb, sorts, and is invariant under child swaps (first-limb-symbolic children)."),
+ "C28": ("model_checking", "4 (C28)", "validate_circuit_config == the documented conjunction for every value of the nine numeric knobs (full usize width)."),
+ "C29": ("model_checking", "4 (C29)", "validate_proof_count exact over all usize; layout length exact for counts <= 64; the public-batch parser rejects out-of-range counts (incl. usize::MAX) before layout arithmetic."),
+}
+
 CHECKS = {
  "C01": ("model_checking", "2-3", "All wire assignments of the complete built leaf circuit: 32-bit ranges, fee bound and the integer fee inequality are consequences of the constraint system (UNSAT of constraints ∧ ¬goal), vacuity-guarded."),
  "C02": ("model_checking", "2-3", "All wire assignments of the leaf circuit: nullifier/address bindings to one shared secret and the leaf's count, hash as uninterpreted sponge spec."),
@@ -41,8 +52,21 @@ def main():
             "level_note": CSX_NOTE,
             "technique": CSX_TECH,
         })
+    for pid, (cat, ref, text) in sorted(KANI.items()):
+        checks.append({
+            "property_id": pid,
+            "quick_cmd": f"./check {pid} --tier quick",
+            "thorough_cmd": f"./check {pid} --tier thorough",
+            "evidence_file": f"/verif/evidence/{pid}.json",
+            "replay_cmd_template": "cat {path}",
+            "engine": "kani",
+            "level_claimed": {"category": cat, "text": text, "design_ref": f"DESIGN.md section {ref}"},
+            "level_note": KANI_NOTE,
+            "technique": KANI_TECH,
+        })
+    checks.sort(key=lambda c: c["property_id"])
     na = json.load(open("/verif/not_applicable.json"))
-    claimed = set(CHECKS)
+    claimed = set(CHECKS) | set(KANI)
     na = [x for x in na if x["property_id"] not in claimed]
     m = {
         "version": 1,
@@ -57,6 +81,8 @@ def main():
         "engines": [
             {"name": "csx", "path": "/verif/csx + /verif/csx-emit", "serves_properties": sorted(CHECKS),
              "kind_free_text": "constraint-system extraction (Rust emitter over the real circuit builders) + typed symbolic executor to z3"},
+            {"name": "kani", "path": "/verif/kani-h + /verif/native", "serves_properties": sorted(KANI),
+             "kind_free_text": "Kani/CBMC proof harnesses over the repo crates as path dependencies"},
         ],
         "checks": checks,
         "not_applicable": na,
